@@ -67,8 +67,9 @@ def make_filter_arrays(rng, truth_wav, kind=None):
     return w, resp, float(np.sqrt(a * b)), kind
 
 
-def build_filter(name, wav_um, resp, central, descending_nu=False, normalize=True):
-    """Filter object built in memory; storage order: nu ascending (wav descending) or the reverse"""
+def build_filter(name, wav_um, resp, central, descending_nu=False, normalize=True, nu_unit=None, cw_unit=None):
+    """Filter object built in memory; storage order: nu ascending (wav descending) or the reverse;
+    frequencies / central wavelength may be given in other units (GHz, THz; nm, Angstrom, mm)"""
     from sedfitter.filter import Filter
     nu = pkg.C_UM_HZ / np.asarray(wav_um, float)       # descending in nu for ascending wav
     r = np.asarray(resp, float)
@@ -76,8 +77,8 @@ def build_filter(name, wav_um, resp, central, descending_nu=False, normalize=Tru
         nu, r = nu[::-1], r[::-1]
     f = Filter()
     f.name = name
-    f.central_wavelength = central * u.micron
-    f.nu = nu.copy() * u.Hz
+    f.central_wavelength = (central * u.micron) if cw_unit is None else (central * u.micron).to(cw_unit)
+    f.nu = (nu.copy() * u.Hz) if nu_unit is None else (nu.copy() * u.Hz).to(nu_unit)
     f.response = r.copy()
     if normalize:
         f.normalize()
